@@ -135,6 +135,12 @@ func ruleDoneOwned(c *Check, a *Analysis, rule string) {
 							ok = true
 						}
 					}
+					// or the Call object is retired on the spot (*call = Call{}): nobody waits on it any more
+					for _, st := range storesIn(fn) {
+						if _, isZero := st.Val.(*ssa.Const); isZero && p.varKey(st.Addr) == p.varKey(base) && p.canReach(cs.(ssa.Instruction), st, never) {
+							ok = true
+						}
+					}
 				}
 			}
 			c.Ob(rule, sc.key(fn, "drain only the recycled call's own channel"), p.InstrPos(cs), ok, ifs(!ok, "a Done channel that is not the channel of a Call being returned to the pool is drained: completions of other calls that share the channel are silently discarded (their callers wait forever)"))
